@@ -281,7 +281,8 @@ def add_tasks(tasks, c, full, wall):
     extra = []
     if G == 56:
         # far above G: the default size and the largest size the compiler accepts at 16 bit (5000 words at wider words)
-        extra = [500, ((1 << 15) - 1) // 2 - 5 if W == 2 else 5000]
+        smax = ((1 << 15) - 1) // 2 - 5
+        extra = [500, smax, smax - 1, smax - 3] if W == 2 else [500, 5000]     # just below the largest size the globals straddle the sign bit
     tasks.append(case_to_task(c, G=G, full=full, wall=wall, extra_sizes=extra))
 
 
